@@ -89,6 +89,7 @@ SeriesA(fn) ==
       [] fn = "bessel_j0" -> [k \in 0..Deg |-> BesCoef(0, k)]
       [] fn = "bessel_j1" -> [k \in 0..Deg |-> BesCoef(1, k)]
       [] fn = "bessel_j2" -> [k \in 0..Deg |-> BesCoef(2, k)]
+ValidDeg(fn) == IF fn \in {"sph_j0", "sph_j1", "sph_j2"} THEN Deg - SphPow(fn) ELSE Deg
 Factorial(k) == IF k <= 1 THEN 1 ELSE IF k = 2 THEN 2 ELSE IF k = 3 THEN 6 ELSE 24
 TowerAt0(fn) == [k \in 0..4 |-> QMul(QInt(Factorial(k)), SeriesA(fn)[k])]
 
@@ -253,7 +254,17 @@ OldTanhFinite ==
 SeriesFns == {"sph_j0", "sph_j1", "sph_j2", "bessel_j0", "bessel_j1", "bessel_j2"}
 ExportSeries ==
     (c.k = "zero4" /\ c.fn = "sph_j0") =>
-        \A fn \in SeriesFns : PrintT(<<"SERIES", ToJson([fn |-> fn, coef |-> [k \in 1..(Deg + 1) |-> SeriesA(fn)[k - 1]]])>>)
+        \A fn \in SeriesFns : PrintT(<<"SERIES", ToJson([fn |-> fn, valid_deg |-> ValidDeg(fn), coef |-> [k \in 1..(Deg + 1) |-> SeriesA(fn)[k - 1]]])>>)
+\* the exported coefficients are exact up to ValidDeg (the division by x^p shifts the truncation down); consecutive non-zero
+\* coefficients decay at least like those of sin: |a[k+2]| (k+1)(k+2) <= |a[k]|.  With alternating signs this bounds the
+\* remainder of the truncated series by (last term) * x^2 / ((d+1)(d+2)); the harness adds that bound to the oracle's
+\* error and may therefore use the series up to |x| = 0.3 (remainder below one unit of f64 rounding).
+CoefDecay ==
+    \A fn \in SeriesFns : \A k \in 0..(ValidDeg(fn) - 2) :
+        LET a == SeriesA(fn) IN
+        (~QIsZero(a[k]) /\ ~QIsZero(a[k + 2])) =>
+            /\ QLe(QInt((k + 1) * (k + 2)), QAbs(QDiv(a[k], a[k + 2])))
+            /\ QSign(a[k]) # QSign(a[k + 2])
 \* the closed forms divide out: the numerators vanish to the order of the divisor
-SeriesWellDefined == \A fn \in {"sph_j0", "sph_j1", "sph_j2"} : LowZero(SphNum(fn), SphPow(fn))
+SeriesWellDefined == (\A fn \in {"sph_j0", "sph_j1", "sph_j2"} : LowZero(SphNum(fn), SphPow(fn))) /\ CoefDecay
 =============================================================================
